@@ -45,6 +45,7 @@ type scheduler struct {
 	chanSeq   int
 	timersNondet bool
 	deterministic bool
+	atomicSwitch  bool // sync/atomic operations are scheduling points (verifrt.AtomicSwitch)
 }
 
 var S *scheduler
